@@ -38,6 +38,10 @@ class Comp:
     def __repr__(self):
         return 'Comp(%s#%s%s)' % (self.k, self.serial, '' if self.h else 'u')
 
+    def __bool__(self):
+        # one equality class of components is false in a boolean context (an empty container utility, say)
+        return self.k != 3
+
     def __call__(self, *a):
         self.calls.append(a)
         return None if self.k == 0 else ('made', self.k, self.serial) + tuple(id(x) for x in a)
@@ -85,7 +89,6 @@ def _run(ctx, rng, big, events):
         classImplements(c, *rng.sample(R, rng.randint(1, 2)))
         classes.append(c)
     objs = [rng.choice(classes)() for _ in range(3)]
-    comps = Components('zmon')
     utils = {}        # (prov, name) -> (comp, info)
     ufac = {}         # (prov, name) -> UFactory or None
     adap = {}         # (req, prov, name) -> (fac, info)
@@ -99,6 +102,27 @@ def _run(ctx, rng, big, events):
         serial[0] += 1
         k = rng.randint(0, 3)
         return Comp(k, serial[0], hashmode or k < 2)
+
+    # half of the histories run on a Components object that has a (static) base
+    use_base = rng.random() < 0.5
+    basec = Components('zmon-base')
+    base_utils, base_adap = {}, {}
+    if use_base:
+        for _ in range(rng.randint(1, 3)):
+            bc, bp, bn = newcomp(), rng.choice(P), rng.choice(['', 'a'])
+            if (bp, bn) in base_utils:
+                continue      # (a replacement would reorder unrelated provided interfaces: ambiguous queries)
+            basec.registerUtility(bc, bp, bn)
+            base_utils[(bp, bn)] = bc
+        for _ in range(rng.randint(0, 2)):
+            bc, brq, bp, bn = newcomp(), (rng.choice(R),), rng.choice(P), rng.choice(['', 'a'])
+            if (brq, bp, bn) in base_adap:
+                continue
+            basec.registerAdapter(bc, brq, bp, bn)
+            base_adap[(brq, bp, bn)] = bc
+    cbases = (basec,) if use_base else ()
+    comps = Components('zmon', bases=cbases)
+    ctx.count('histories_with_a_base' if use_base else 'histories_without_base')
 
     def describe_ok(ev, cls, **fields):
         ob = ev.object
@@ -129,7 +153,9 @@ def _run(ctx, rng, big, events):
             if rng.random() < 0.85:
                 continue
             ctx.op('reinit')
-            comps.__init__('zmon')
+            # (re-initialised with the same bases it had)
+            comps.__init__('zmon', bases=cbases)
+            ctx.count('reinitialisations')
             utils.clear()
             ufac.clear()
             adap.clear()
@@ -377,14 +403,23 @@ def _run(ctx, rng, big, events):
         if rb['needed_registered'] or rb['needed_subscribed']:
             ctx.violation('rebuild-finds-repairs', dict(where, report=rb))
         # ---- queries vs fresh registries populated with exactly the ledger --------
-        fu = AdapterRegistry()
+        fub, fab = AdapterRegistry(), AdapterRegistry()
+        seenb = []
+        for (p, n), cc in base_utils.items():
+            fub.register((), p, n, cc)
+            if not any(sp is p and sc == cc for sp, sc in seenb):
+                fub.subscribe((), p, cc)
+                seenb.append((p, cc))
+        for (rq, p, n), f in base_adap.items():
+            fab.register(rq, p, n, f)
+        fu = AdapterRegistry((fub,) if use_base else ())
         seen = []
         for (p, n), (cc, i) in utils.items():
             fu.register((), p, n, cc)
             if not any(sp is p and sc == cc for sp, sc in seen):
                 fu.subscribe((), p, cc)
                 seen.append((p, cc))
-        fa = AdapterRegistry()
+        fa = AdapterRegistry((fab,) if use_base else ())
         for (rq, p, n), (f, i) in adap.items():
             fa.register(rq, p, n, f)
         for (rq, p, f) in subs:
